@@ -448,7 +448,7 @@ def numContAll : Char → List Char → Bool
 def numShape (cs : List Char) : Bool :=
   match cs with
   | [] => false
-  | c :: r => c.isDigit && numContAll c r && ((c :: r).getLast?.getD 'x').isDigit
+  | c :: r => c.isDigit && numContAll c r && (((c :: r).reverse).headD 'x').isDigit
 
 def isNegLit : Expr → Bool
   | .litF re _ false => decide (re < 0)
